@@ -125,21 +125,17 @@ def isLlvmPaths (it : Item) : Option (List Bytes) :=
 /-- the tool contract under which a worker's items do not influence each other:
   * gcov writes regular files only;
   * every successful gcov run follows the same output convention `m` (its own
-    `<notes file name><ext>` is among the files it writes: `single`; is not: `multi`);
-  * (only needed for `multi`) the profile merge leaves nothing in the directory. -/
+    `<notes file name><ext>` is among the files it writes: `single`; is not: `multi`). -/
 structure Guard (env : Env) (m : GcovType) (items : List Item) : Prop where
   mode : m = .single ∨ m = .multi
   filesOnly : ∀ stem g, (⟨.gcno, .path stem g⟩ : Item) ∈ items → ∀ w ∈ (env.gcovRun g).writes, w.2 ≠ .subdir
   uniform : ∀ stem g, (⟨.gcno, .path stem g⟩ : Item) ∈ items → (env.gcovRun g).ok = true → modeOf env g = m
-  noProfdata : m = .multi → ∀ it ∈ items, ∀ ps, isLlvmPaths it = some ps → env.hasBinary = true →
-    (env.llvm ps).profdata = none
 
 theorem Guard.mono {env : Env} {m : GcovType} {items items' : List Item} (G : Guard env m items)
     (h : ∀ it ∈ items', it ∈ items) : Guard env m items' where
   mode := G.mode
   filesOnly := fun stem g hg => G.filesOnly stem g (h _ hg)
   uniform := fun stem g hg => G.uniform stem g (h _ hg)
-  noProfdata := fun hm it hit => G.noProfdata hm it (h _ hit)
 
 /-- the states from which an item behaves as on its own -/
 def Good (m : GcovType) (st : WorkerState) : Prop :=
@@ -225,33 +221,73 @@ theorem stepPath_solo (env : Env) (m : GcovType) (stem g : Bytes)
         refine ⟨by first | rfl | trivial, fun hp => ⟨by simp, ?_⟩⟩
         exact multiRead_dir env _ stem hp
 
+theorem erase_set (d : Dir) (n : Bytes) (e : Entry) : AList.erase (AList.set d n e) n = AList.erase d n := by
+  induction d with
+  | nil => simp [AList.set, AList.erase]
+  | cons kv d ih =>
+    obtain ⟨k, e'⟩ := kv
+    unfold AList.set
+    by_cases hk : k = n
+    · simp [hk, AList.erase]
+    · simp [hk, AList.erase, ih]
+
+theorem erase_of_absent {d : Dir} {n : Bytes} (h : get? d n = none) : AList.erase d n = d := by
+  induction d with
+  | nil => rfl
+  | cons kv d ih =>
+    obtain ⟨k, e⟩ := kv
+    simp only [get?_cons] at h
+    by_cases hk : k = n
+    · simp [hk] at h
+    · simp only [hk, if_false] at h
+      simp [AList.erase, hk, ih h]
+
+theorem rmFile_of_absent {d : Dir} {n : Bytes} (h : get? d n = none) : rmFile d n = d := by
+  unfold rmFile; rw [h]; exact erase_of_absent h
+
+/-- after a profile item the directory is the old one without a regular file `grcov.profdata`,
+whatever the merge tool wrote -/
+theorem stepLlvm_dir (env : Env) (st : WorkerState) (ps : List Bytes) (hb : env.hasBinary = true) :
+    (stepLlvm env st (.paths ps)).1 = ⟨st.gcovType, rmFile st.dir PROFDATA⟩ := by
+  have key : ∀ c, rmFile (if get? st.dir PROFDATA = some .subdir then st.dir
+      else AList.set st.dir PROFDATA (.file c)) PROFDATA = rmFile st.dir PROFDATA := by
+    intro c
+    by_cases hs : get? st.dir PROFDATA = some .subdir
+    · simp [hs]
+    · simp only [hs, if_false]
+      unfold rmFile
+      rw [get?_set]
+      simp only [if_true]
+      rw [erase_set]
+  unfold stepLlvm
+  simp only [hb, Bool.not_true, Bool.false_eq_true, if_false]
+  cases hp : (env.llvm ps).profdata with
+  | none => cases (env.llvm ps).res <;> rfl
+  | some c => cases (env.llvm ps).res <;> simp only [key c]
+
 theorem stepLlvm_solo (env : Env) (m : GcovType) (it : ItemType)
-    (hno : m = .multi → ∀ ps, it = .paths ps → env.hasBinary = true → (env.llvm ps).profdata = none)
     (st : WorkerState) (hst : Good m st) :
     (stepLlvm env st it).2 = (stepLlvm env ⟨m, []⟩ it).2 ∧
       ((stepLlvm env st it).2 ≠ .panic → Good m (stepLlvm env st it).1) := by
-  unfold stepLlvm
   cases hb : env.hasBinary with
-  | false => exact ⟨rfl, fun _ => hst⟩
+  | false => simp only [stepLlvm, hb]; exact ⟨rfl, fun _ => hst⟩
   | true =>
     cases it with
     | paths ps =>
-      simp only [Bool.not_true, Bool.false_eq_true, if_false]
-      cases hp : (env.llvm ps).profdata with
-      | none =>
-        cases (env.llvm ps).res <;> exact ⟨rfl, fun _ => hst⟩
-      | some c =>
-        have hm : m ≠ .multi := fun h => by
-          have := hno h ps rfl hb; rw [hp] at this; cases this
-        have hg : Good m ⟨st.gcovType, AList.set st.dir PROFDATA (.file c)⟩ := by
-          cases m with
-          | single => exact hst
-          | multi => exact absurd rfl hm
-          | unknown => exact hst
-        cases (env.llvm ps).res <;> exact ⟨rfl, fun _ => hg⟩
-    | path _ _ => exact ⟨rfl, fun _ => hst⟩
-    | content _ => exact ⟨rfl, fun _ => hst⟩
-    | buffers _ _ => exact ⟨rfl, fun _ => hst⟩
+      refine ⟨?_, fun _ => ?_⟩
+      · unfold stepLlvm
+        simp only [hb, Bool.not_true, Bool.false_eq_true, if_false]
+        cases (env.llvm ps).res <;> rfl
+      · rw [stepLlvm_dir env st ps hb]
+        cases m with
+        | single => exact hst
+        | multi =>
+          obtain ⟨ht, hd⟩ := hst
+          exact ⟨ht, by show rmFile st.dir PROFDATA = []; rw [hd]; rfl⟩
+        | unknown => exact hst
+    | path _ _ => simp only [stepLlvm, hb]; exact ⟨rfl, fun _ => hst⟩
+    | content _ => simp only [stepLlvm, hb]; exact ⟨rfl, fun _ => hst⟩
+    | buffers _ _ => simp only [stepLlvm, hb]; exact ⟨rfl, fun _ => hst⟩
 
 /-- one step under the guard -/
 theorem step_solo (env : Env) (m : GcovType) (items : List Item) (G : Guard env m items)
@@ -267,10 +303,8 @@ theorem step_solo (env : Env) (m : GcovType) (items : List Item) (G : Guard env 
     | buffers stem b => dsimp only; cases env.compute stem b <;> exact ⟨rfl, fun _ => hst⟩
     | content c => exact ⟨rfl, fun _ => hst⟩
     | paths ps => exact ⟨rfl, fun _ => hst⟩
-  | profraw =>
-    exact stepLlvm_solo env m t (fun hm ps hps hb => G.noProfdata hm _ hit ps (by subst hps; rfl) hb) st hst
-  | profdata =>
-    exact stepLlvm_solo env m t (fun hm ps hps hb => G.noProfdata hm _ hit ps (by subst hps; rfl) hb) st hst
+  | profraw => exact stepLlvm_solo env m t st hst
+  | profdata => exact stepLlvm_solo env m t st hst
   | info =>
     cases t with
     | content c => dsimp only; cases env.parseLcov c <;> exact ⟨rfl, fun _ => hst⟩
@@ -424,12 +458,6 @@ theorem singleRead_results_removed (env : Env) (d : Dir) (stem name : Bytes) (rs
       · simp [get?_erase]
   · simp_all
 
-/-- the contract without the clause about the profile merge -/
-structure Guard0 (env : Env) (m : GcovType) (items : List Item) : Prop where
-  mode : m = .single ∨ m = .multi
-  filesOnly : ∀ stem g, (⟨.gcno, .path stem g⟩ : Item) ∈ items → ∀ w ∈ (env.gcovRun g).writes, w.2 ≠ .subdir
-  uniform : ∀ stem g, (⟨.gcno, .path stem g⟩ : Item) ∈ items → (env.gcovRun g).ok = true → modeOf env g = m
-
 /-- what is needed on top of the contract for a worker never to die -/
 structure PanicFree (env : Env) (m : GcovType) (items : List Item) : Prop where
   ext : m = .single → (endsWith env.ext GZ || endsWith env.ext GCOV) = true
@@ -522,8 +550,9 @@ theorem solo_ne_panic (env : Env) (m : GcovType) (items : List Item) (G : Guard 
 def gzName : Bytes := [97, 46, 103, 122]                       -- "a.gz"
 def uGcno : Bytes := [117, 46, 103, 99, 110, 111]              -- "u.gcno"
 
-/-- gcov ≥ 12 style (the output is not named after the notes file), a profile merge that leaves
-`grcov.profdata` (content 0, not a gcov file) -/
+/-- the witness of the former finding C20-profdata-left-in-worker-dir (fixed by 2cb069b): gcov ≥ 12
+style (the output is not named after the notes file), a profile merge that writes `grcov.profdata`
+(content 0, not a gcov file). Kept as a regression example. -/
 def witnessEnvProfdata : Env where
   guess := false
   hasBinary := true
